@@ -291,6 +291,12 @@ pub struct EncPar<'a> {
     pub level: u32,
 }
 
+pub fn dump_block(b: &Block) -> Vec<u8> {
+    let full = dump_blocks(std::slice::from_ref(b), &[]);
+    // drop the (empty) index and its length that dump_blocks appends
+    full[..full.len() - 12].to_vec()
+}
+
 pub fn dump_blocks(blocks: &[Block], index: &[(Vec<u8>, Vec<u64>, u64, u64)]) -> Vec<u8> {
     let mut p = vec![];
     for b in blocks {
